@@ -96,7 +96,7 @@ def do_run(prefix, tier):
         dst = os.path.join(root, name)
         meta = json.load(open(os.path.join(dst, "meta.json")))
         res = run_check(os.path.join(dst, "patch.diff"), meta["property"], tier)
-        meta["checks"] = [c for c in meta.get("checks", []) if not (c["check"] == res["check"] and c["tier"] == tier)] + [res]
+        meta["checks"] = meta.get("checks", []) + [res]
         json.dump(meta, open(os.path.join(dst, "meta.json"), "w"), indent=1)
         print("%s: %s %s" % (name, "DETECTED" if res["detected"] else "MISSED rc=%s" % res["rc"], res["first"][1:2]))
 
